@@ -197,6 +197,14 @@ def run_unit(unit, extra=(), repo=REPO, keep=True):
                 r.failures.append(dict(unit=unit, obligation="%s/%s@%s" % (unit, name, fn_name), tag=name, props=props,
                                        fn=fn_name, kind=kind, gen_line=line, src=item["src"] if item else None,
                                        src_line=src_line, snippet=snippet, message=_render(d)))
+        elif kind.startswith("precondition") and _callee_is_lemma(lines, spans, line, unit):
+            # a proof step (call of a lemma of the contract file) inside a function under contract no longer
+            # goes through: the function's own tagged contract is what this step establishes
+            lem = _callee_is_lemma(lines, spans, line, unit)
+            props = _fn_props(r, item)
+            r.failures.append(dict(unit=unit, obligation="%s/%s.proofstep.%s" % (unit, fn_name, lem), tag=None, props=props,
+                                   fn=fn_name, kind=kind, gen_line=line, src=item["src"] if item else None,
+                                   src_line=src_line, snippet=snippet, message=_render(d)))
         else:
             props = ["C03"] if (kind in SAFETY or kind.startswith("precondition")) else _fn_props(r, item)
             r.failures.append(dict(unit=unit, obligation="%s/%s.safety" % (unit, fn_name) if props == ["C03"] else "%s/%s.%s" % (unit, fn_name, kind.split()[0]),
@@ -226,6 +234,19 @@ def _enclosing_reach(lines, line):
             return m.group(1)
         if lines[k].startswith("// >>>") or lines[k].startswith("// <<<"):
             return None
+    return None
+
+def _callee_is_lemma(lines, spans, primary_line, unit):
+    """name of the `proof fn` whose `requires` a failed-precondition diagnostic points at, else None"""
+    for s in spans:
+        if s.get("is_primary") or not s.get("file_name", "").endswith(unit + ".rs"):
+            continue
+        for k in range(s["line_start"] - 1, max(0, s["line_start"] - 80), -1):
+            m = re.search(r"\bfn\s+(\w+)", lines[k])
+            if m:
+                return m.group(1) if re.search(r"\bproof\s+fn\b", lines[k]) else None
+            if lines[k].startswith("// >>>") or lines[k].startswith("// <<<"):
+                break
     return None
 
 def _fn_props(r, item):
